@@ -234,7 +234,7 @@ def judge_oncurve(ctx, case):
         if not (ok and ok2):
             ctx.violation("oncurve", "curve-point-not-in-segment", sub, "t=%r point %r: in=%r (as floats %r)" % (t, _pt(p), ok, ok2), "deg%d" % deg)
     d = rg.bez_deriv(fctrl)
-    for t, off in zip(case["ts"], case["offsets"]):
+    for t, off in zip(case["ts"], case.get("offsets", [])):  # (a replayed on-curve sub-case has no offsets)
         tf = float(t)
         b = rg.bez_eval(fctrl, tf)
         dv = rg.bez_eval(d, tf)
